@@ -69,11 +69,19 @@ func main() {
 	cmd, id := os.Args[1], strings.ToLower(os.Args[2])
 	rest := os.Args[3:]
 	bin := build(id)
+	companion := ""
+	if b, err := os.ReadFile(filepath.Join(verifDir(), "harness", id, "COMPANION")); err == nil {
+		// a second harness (other build mode) that the main one runs as a subprocess
+		companion = build(strings.TrimSpace(string(b)))
+	}
 	switch cmd {
 	case "build":
 		fmt.Println(bin)
 	case "run":
 		env := append(os.Environ(), "VERIF_DIR="+verifDir(), "VERIF_REPO="+repoDir())
+		if companion != "" {
+			env = append(env, "VERIF_COMPANION_BIN="+companion)
+		}
 		if err := syscall.Exec(bin, append([]string{bin}, rest...), env); err != nil {
 			die(2, "exec: %v", err)
 		}
